@@ -141,7 +141,9 @@ class Gen:
             if not usable:
                 return self.ty(depth - 1, **sub)
             a = r.choice(usable)
-            if a[1] and r.random() < 0.9:
+            # inside alias arguments and alias bodies a parametrised alias is always applied: a bare one would have
+            # its own parameters captured by an enclosing application (haiway binds alias arguments by name, lazily)
+            if a[1] and (no_self or in_alias or r.random() < 0.9):
                 return ["alias", a[0], *[self.ty(min(depth - 1, 1), **{**sub, "no_self": True}) for _ in a[1]]]
             return ["alias", a[0]]
         if k == "gen":
